@@ -181,8 +181,12 @@ func C06(sp *spec.Spec, ex *rt.Exchange) *Verdict {
 				okc = true
 			}
 			if !okc {
-				_ = locOfSec
-				v.add(fmt.Sprintf("auth-credential-altered:%s:%s", sc.Kind, credClass(want)), "%s credential: client supplied %q, callback received %q", sc.Kind, want, got)
+				// where the design sends the credential: an unmapped credential travels in the Authorization header
+				where := locOfSec(sec)
+				if where == "body" || where == "?" {
+					where = "header"
+				}
+				v.add(fmt.Sprintf("auth-credential-altered:%s:%s:%s", sc.Kind, where, credClass(want)), "%s credential (sent in the %s): client supplied %q, callback received %q", sc.Kind, where, want, got)
 			}
 		}
 	}
